@@ -573,3 +573,35 @@ func infeasibleInContext(b *ssa.BasicBlock) bool {
 	}
 	return false
 }
+
+
+// alwaysRuns: every path from the function's entry to a return passes through the instruction's
+// block (no branch, written as one condition or as a disjunction of several, skips it). For
+// functions without loops around the instruction.
+func alwaysRuns(in ssa.Instruction) bool {
+	b := in.Block()
+	f := b.Parent()
+	if len(f.Blocks) == 0 {
+		return false
+	}
+	if f.Blocks[0] == b {
+		return true
+	}
+	seen := map[*ssa.BasicBlock]bool{b: true}
+	stack := []*ssa.BasicBlock{f.Blocks[0]}
+	for len(stack) > 0 {
+		x := stack[len(stack)-1]
+		stack = stack[:len(stack)-1]
+		if seen[x] {
+			continue
+		}
+		seen[x] = true
+		if len(x.Instrs) > 0 {
+			if _, isRet := x.Instrs[len(x.Instrs)-1].(*ssa.Return); isRet {
+				return false
+			}
+		}
+		stack = append(stack, x.Succs...)
+	}
+	return true
+}
